@@ -293,6 +293,9 @@ impl<A: HApi> Sut for HSut<A> {
     fn refused(&self, op: &Op, out: &OpOut) -> bool {
         matches!(op.name, "ins" | "rem") && out.result == "false"
     }
+    fn alt_skew(&self) -> usize {
+        A::val().1.max(4) % 16
+    }
     fn sessionable(&self, op: &Op) -> bool {
         !matches!(op.name, "open" | "fill" | "iter")
     }
